@@ -110,6 +110,42 @@ Section TopTyped.
 
   Definition decide_merge (a b : list A) (ds : script) : res (list A * script) :=
     interleave (length a + length b) a b ds.
+
+  (* ---------------------------------------------------------------- TopLevelKeyedStreamOrderHook
+     ([front] = false) and TopLevelPartiallyOrderedStreamHook ([front] = true): one item of one
+     non-empty key, any position resp. the front.  [m] is in iteration order; the ki-th
+     NON-EMPTY entry is picked. *)
+  Context {K : Type}.
+
+  Definition count_ne (m : list (K * list A)) : nat :=
+    length (filter (fun e => negb (is_nil (snd e))) m).
+
+  Fixpoint take_ne (front : bool) (ki : nat) (m : list (K * list A)) (ds : script)
+    : res (list (K * A) * list (K * list A) * script) :=
+    match m with
+    | [] => Panic 6
+    | (k, q) :: m' =>
+      if is_nil q then
+        bind (take_ne front ki m' ds) (fun '(rel, mr, ds') => Ok (rel, (k, q) :: mr, ds'))
+      else
+        match ki with
+        | S ki' => bind (take_ne front ki' m' ds) (fun '(rel, mr, ds') => Ok (rel, (k, q) :: mr, ds'))
+        | O =>
+          bind (if front then Ok (O, ds) else ask_excl 0 (length q) ds) (fun '(ii, ds') =>
+            match remove_at ii q with
+            | Some (x, q') => Ok ([(k, x)], (k, q') :: m', ds')
+            | None => Panic 6
+            end)
+        end
+    end.
+
+  Definition decide_top_keyed (front force : bool) (m : list (K * list A)) (ds : script)
+    : res (list (K * A) * list (K * list A) * script * bool) :=
+    if count_ne m =? 0 then Ok ([], m, ds, false) else
+    bind (if force then Ok (false, ds) else ask_bool ds) (fun '(skip, ds1) =>
+      if (skip : bool) then Ok ([], m, ds1, false) else
+      bind (ask_excl 0 (count_ne m) ds1) (fun '(ki, ds2) =>
+        bind (take_ne front ki m ds2) (fun '(rel, m', ds3) => Ok (rel, m', ds3, true)))).
 End TopTyped.
 
 (* ==================================================================== correspondence *)
@@ -118,18 +154,21 @@ Open Scope N_scope.
 Inductive thook : Type :=
 | TOrder (q : list N)
 | TFold (q : list N)
-| TMerge (q1 q2 : list N).
+| TMerge (q1 q2 : list N)
+| TKeyed (front : bool) (m : list (N * list N)).
 
 Definition tqueues (h : thook) : list (N * list N) :=
   match h with
   | TOrder q | TFold q => [(0, q)]
   | TMerge q1 q2 => [(0, q1); (1, q2)]
+  | TKeyed _ m => m
   end.
 
 Definition tcan (h : thook) : bool :=
   match h with
   | TOrder q | TFold q => negb (is_nil q)
   | TMerge q1 q2 => negb (is_nil q1) || negb (is_nil q2)
+  | TKeyed _ m => negb (all_empty m)
   end.
 
 (* autonomous_decision + release_decision: released items, new state, rest, return value *)
@@ -139,6 +178,16 @@ Definition tauto (h : thook) (force : bool) (ds : script) : res (list N * thook 
   | TFold q => bind (decide_top_fold force q ds) (fun '(rel, q', ds', nt) => Ok (rel, TFold q', ds', nt))
   | TMerge q1 q2 =>
     bind (decide_top_merge force q1 q2 ds) (fun '(rel, a, b, ds', nt) => Ok (rel, TMerge a b, ds', nt))
+  | TKeyed front m =>
+    bind (decide_top_keyed front force m ds) (fun '(rel, m', ds', nt) => Ok (map snd rel, TKeyed front m', ds', nt))
+  end.
+
+(* the items as sent on the output channel (keyed hooks send (key, value) pairs) *)
+Definition temit (h : thook) (force : bool) (ds : script) : list (N * N) :=
+  match h with
+  | TKeyed front m =>
+    match decide_top_keyed front force m ds with Ok (rel, _, _, _) => rel | _ => [] end
+  | _ => match tauto h force ds with Ok (rel, _, _, _) => unkeyed rel | _ => [] end
   end.
 
 Definition tmodel (h : thook) (force : bool) (ds : script) : obs :=
@@ -146,7 +195,7 @@ Definition tmodel (h : thook) (force : bool) (ds : script) : obs :=
   | BadScript => OBad
   | Panic c => OPanic c false
   | Ok (rel, h', rest, nt) =>
-    OOk (tqueues h) None (tcan h) true nt (Some (negb (is_nil rel))) (unkeyed rel) (tqueues h')
+    OOk (tqueues h) None (tcan h) true nt (Some (negb (is_nil rel))) (temit h force ds) (tqueues h')
         (length ds - length rest)
   end.
 
@@ -182,6 +231,20 @@ Definition top_sound_b (h : thook) (before : list (N * list N)) (emitted : list 
     | [x] =>
       (ln_eqb (qAof before) (x :: qAof after) && ln_eqb (q1of before) (q1of after))
       || (ln_eqb (q1of before) (x :: q1of after) && ln_eqb (qAof before) (qAof after))
+    | _ => false
+    end
+  | TKeyed front _ =>
+    match emitted with
+    | [] => map_eqb before after
+    | [(k, x)] =>
+      ln_eqb (map fst before) (map fst after)
+      && forallb (fun e => match qlookup (fst e) after with
+                           | Some qa =>
+                             if N.eqb (fst e) k
+                             then (if front then ln_eqb (snd e) (x :: qa) else merge_b [x] qa (snd e))
+                             else ln_eqb qa (snd e)
+                           | None => false
+                           end) before
     | _ => false
     end
   end.
